@@ -51,10 +51,12 @@ func (a baseAlgo) SelectBeacons(_ context.Context, beacons []Beacon, resultSize 
 
 	result := make([]Beacon, resultSize-1, resultSize)
 	copy(result, beacons[:resultSize-1])
-	_, diversity := a.selectMostDiverse(result, result[0])
+	// The best beacon is the first one. Note that result is empty if resultSize is 1.
+	best := beacons[0]
+	_, diversity := a.selectMostDiverse(result, best)
 
 	// Check if we find a more diverse beacon in the rest.
-	mostDiverseRest, diversityRest := a.selectMostDiverse(beacons[resultSize-1:], result[0])
+	mostDiverseRest, diversityRest := a.selectMostDiverse(beacons[resultSize-1:], best)
 	if diversityRest > diversity {
 		return append(result, mostDiverseRest)
 	}
